@@ -70,6 +70,7 @@ impl Backend {
 pub fn install_clocks(start_ms: u64) {
     anda_db_utils::verif::set_clock(Some(start_ms));
     anda_object_store::verif::set_clock(Some(start_ms));
+    anda_object_store::verif::set_rand_seed(Some(start_ms ^ 0x5EED));
 }
 
 /// Which indexes exist (the open callback creates exactly these, removing others).
